@@ -46,6 +46,13 @@ func Split(src string) (entries []string) {
 			class = RuneOther
 		}
 
+		if len(runes) == 0 {
+			// first rune always starts the first word, whatever its class
+			runes = append(runes, []rune{r})
+			lastClass = class
+			continue
+		}
+
 		if class == lastClass || (class == RuneDigit && (lastClass == RuneUpper || lastClass == RuneLower)) {
 			runes[len(runes)-1] = append(runes[len(runes)-1], r)
 			lastClass = class
